@@ -265,7 +265,11 @@ Exit(mode) ==
 -----------------------------------------------------------------------------
 (* Uniqueness-gated operations.  The verdict is `count word = 1`.  *)
 
-Verdict(b) == IF blk[b].rc = 1 THEN "yes" ELSE "no"
+\* every gate below asks exactly this of the count word, whatever its magnitude (a gate that looks at part of the
+\* word, e.g. its low 32 bits, opens for 2^32 + 1 owners: `tvh gates` presets such counts on the real crate)
+GateOpen(rc) == rc = 1
+
+Verdict(b) == IF GateOpen(blk[b].rc) THEN "yes" ELSE "no"
 
 IsUnique(s) ==
     /\ On("IsUnique") /\ hnd[s].k \in {"Arc", "Dyn", "TArc"}
